@@ -114,8 +114,9 @@ CLAIMED = {
         design="7/C15"),
     "C16": dict(
         text="Theorems (Props/C16.lean): for every well-formed AST the bash script follows the block grammar (non-empty bodies, own closers), nesting depth returns to 0, bodies "
-             "start with a command, an empty block is the no-op. bash -n and the Batch structure (labels, parentheses, helpers, jumps): structural oracles on every emitted script.",
-        note=TB + "the Batch part is decided by the structural oracle and the model correspondence, not yet by theorems.",
+             "start with a command, an empty block is the no-op, every bash helper that is called is defined. Batch: parentheses balance, no construct is left open, no construct "
+             "label (:_iN, :_fN, :_eN) is defined twice and every construct goto has its label, for every program. bash -n and the Batch text: structural oracles on every emitted script.",
+        note=TB + "Batch function labels and helper inclusion are decided by the structural oracle and the model correspondence, not by theorems.",
         technique="Lean 4 refinement theorem (block grammar) + bash -n + structural parse of Batch text",
         design="7/C16"),
     "C17": dict(
